@@ -33,6 +33,8 @@ partial def parseGV : List String → Option (GV × List String)
     | 'A' => arg.toNat?.bind fun n => (parseN n rest).map fun (vs, r) => (.array vs, r)
     | 'M' => arg.toNat?.bind fun n => (parseKV n rest).map fun (kvs, r) => (.map kvs, r)
     | 'T' => arg.toNat?.bind fun n => (parseF n rest).map fun (fs, r) => (.struct fs, r)
+    | 'H' => arg.toNat?.bind fun n => (parseF n rest).map fun (fs, r) => (.sh .marshaler fs, r)   -- confmap.Marshaler
+    | 'Y' => arg.toNat?.bind fun n => (parseF n rest).map fun (fs, r) => (.sh .yaml fs, r)        -- yaml-tagged struct
     | 'V' => arg.toNat?.bind fun n => (parseF n rest).map fun (fs, r) => (.tm "tmv" true fs, r)    -- value-receiver MarshalText
     | 'W' => arg.toNat?.bind fun n => (parseF n rest).map fun (fs, r) => (.tm "tmp" false fs, r)   -- pointer-receiver MarshalText
     | _ => none
@@ -110,7 +112,26 @@ def fmtHandler : Handler FS where
         let t2 := pathText Opaque.methods name p "Wb"
         (s, [s!"obs dep={if t1 != t2 then 1 else 0} marker={if t1 == Opaque.marker then 1 else 0}"])
       | _, _ => (s, ["obs bad-op"])
-    | "misc" :: _ => (s, ["obs dep=0"])      -- EXTRA / BADINDEX / BADWIDTH / Sprint wrappers: `printArg(arg,'v')` outside `erroring`, or no operand at all
+    | "misc" :: rest =>
+      -- Sprint/Sprintln/Fprint/Errorf("%v") and the `%!(EXTRA type=value)` tail are `printArg(arg, 'v')` outside `erroring`:
+      -- answered by the model `pa`; BADINDEX / BADWIDTH / BADPREC print no operand at all
+      let viaPa := ["sprint", "sprintln", "sprint_slice", "errorf_v", "extra", "extra_noverb", "noverb", "percent", "fprint", "time_unrelated"]
+      let noOperand := ["badindex", "badwidth", "badprec"]
+      let consts := ["string_method", "gostring_method", "errors_new"]
+      match kv rest "kind" with
+      | some k =>
+        if viaPa.contains k then
+          let v : GV := if k == "sprint_slice" then .slice [.opq 0] else .opq 0
+          let c : FmtCtx := { verb := 'v' }
+          (s, [s!"obs dep={if depends false (pa Opaque.methods c ρ1 v) (pa Opaque.methods c ρ2 v) then 1 else 0}"])
+        else if noOperand.contains k then (s, ["obs dep=0"])
+        else if consts.contains k then
+          let nm := if k == "gostring_method" then "GoString" else "String"
+          match TD.find Opaque.methods nm false with
+          | some m => (s, [s!"obs dep={if m.result.eval "Qa" != m.result.eval "Wb" then 1 else 0}"])
+          | none => (s, ["obs bad-op no-such-method"])
+        else (s, ["obs bad-op unknown-misc-kind"])
+      | none => (s, ["obs bad-op"])
     | _ => (s, ["obs bad-op"])
   onObs := fun s toks =>
     match toks with
